@@ -70,6 +70,9 @@ struct Sess {
         a5.unit("V");
         nix::DataArray a6 = b.createDataArray("a6", "t", nix::DataType::Double, nix::NDSize({2, 3}));
         a6.appendSampledDimension(1.0, "t", "ms"); a6.appendSampledDimension(2.0, "v", "mV"); a6.unit("V");
+        nix::DataArray a7 = b.createDataArray("a7", "t", nix::DataType::Double, nix::NDSize({3}));
+        { std::vector<double> d = {1.0, 2.5, 4.0}; a7.setData(nix::DataType::Double, d.data(), nix::NDSize({3}), nix::NDSize({0})); }
+        a7.unit("ms"); a7.label("events"); a7.appendAliasRangeDimension();
         nix::DataArray af1 = b.createDataArray("af1", "t", nix::DataType::Double, nix::NDSize({2})); af1.unit("V"); af1.appendSetDimension();
         nix::DataArray af2 = b.createDataArray("af2", "t", nix::DataType::Double, nix::NDSize({2})); af2.unit("V"); af2.appendSetDimension();
         nix::Tag t = b.createTag("tag", "t", {1.0, 2.0});
@@ -97,6 +100,9 @@ struct Sess {
             if (on("dupticks")) t[2] = t[1];          // ascending, not strictly
             if (on("unsorted")) { std::swap(t[0], t[2]); close(); h5WriteTicks(path, "/data/b/data_arrays/a1/dimensions/2", t); open(); }   // the API refuses it
             else arr("a1").getDimension(2).asRangeDimension().ticks(t);
+        } else if (k == "alias_unsorted") {
+            std::vector<double> d = on("alias_unsorted") ? std::vector<double>{4.0, 1.0, 2.5} : std::vector<double>{1.0, 2.5, 4.0};
+            arr("a7").setData(nix::DataType::Double, d.data(), nix::NDSize({3}), nix::NDSize({0}));
         } else if (k == "unit_nonsi") { arr("a1").unit(on("unit_nonsi") ? "foo" : "mV");
         } else if (k == "ndims_extra") { arr("a1").appendSetDimension();
         } else if (k == "poly_noorigin") { if (on("poly_noorigin")) arr("a1").polynomCoefficients({1.0, 2.0}); else arr("a1").polynomCoefficients(nix::none);
@@ -154,6 +160,8 @@ struct Sess {
         rec1("A4", [&] { return nix::valid::validate(a4); });
         rec1("A5", [&] { return nix::valid::validate(a5); });
         rec1("A6", [&] { return nix::valid::validate(b.getDataArray("a6")); });
+        rec1("A7", [&] { return nix::valid::validate(b.getDataArray("a7")); });
+        rec1("D71", [&] { return nix::valid::validate(b.getDataArray("a7").getDimension(1).asRangeDimension()); });
         rec1("T2", [&] { return nix::valid::validate(b.getTag("tag2")); });
         rec1("D11", [&] { return nix::valid::validate(a1.getDimension(1).asSampledDimension()); });
         rec1("D12", [&] { return nix::valid::validate(a1.getDimension(2).asRangeDimension()); });
@@ -211,7 +219,7 @@ json handle(Ctx &c, const json &rec) {
         else if (a == "Validate") {
             json obs, details;
             std::string d = s.validate(st["errors"], st.value("warns", json()), obs, details, known);
-            n += 19;
+            n += 21;
             if (!d.empty()) {
                 json exp = d.rfind("warning:", 0) == 0 ? st["warns"] : st["errors"];
                 json r = mismatch("valid:step" + std::to_string(i + 1) + ":" + d, exp, obs);
